@@ -2,6 +2,7 @@ package ast
 
 import (
 	"fmt"
+	"strconv"
 	"strings"
 
 	"github.com/smarthome-go/homescript/v3/homescript/errors"
@@ -70,13 +71,17 @@ type FloatLiteralExpression struct {
 
 func (self FloatLiteralExpression) Kind() ExpressionKind { return FloatLiteralExpressionKind }
 func (self FloatLiteralExpression) Span() errors.Span    { return self.Range }
-func (self FloatLiteralExpression) String() string {
-	// If the float can be replresented as an int without loss, the 'f' extension is forced.
-	if float64(int64(self.Value)) == self.Value {
-		return fmt.Sprintf("%df", int64(self.Value))
+func (self FloatLiteralExpression) String() string       { return FormatFloatLiteral(self.Value) }
+
+// FormatFloatLiteral prints a float the way the lexer reads it: plain decimal digits, never an
+// exponent; if there is no fractional part, the 'f' extension is forced.
+func FormatFloatLiteral(value float64) string {
+	digits := strconv.FormatFloat(value, 'f', -1, 64)
+	if !strings.Contains(digits, ".") {
+		return digits + "f"
 	}
 
-	return fmt.Sprint(self.Value)
+	return digits
 }
 
 //
